@@ -27,7 +27,7 @@ CHUNK = 40
 
 def BOUNDS(tier):
     return {'crystals': QUICK if tier == 'quick' else THOROUGH, 'bases': ['T', 'G1', 'G2', 'X'], 'letters': vm.LETTER_NAMES,
-            'k': '2 (1 for crystals with > 4 vacancy classes; base X: 1)' if tier == 'quick' else '3 (2 for > 8 vacancy classes)', 'tol': TOL, 'tol_vb': TOL_VB}
+            'k': '2 (1 for crystals with > 4 vacancy classes; base X: 1)' if tier == 'quick' else '2 (1 for > 8 vacancy classes)', 'tol': TOL, 'tol_vb': TOL_VB}
 
 
 def _vcoords(ent):
@@ -36,7 +36,7 @@ def _vcoords(ent):
 
 def cases(tier):
     out = []
-    k = 2 if tier == 'quick' else 3
+    k = 2      # (a third simultaneous deviation was tried for the thorough tier: 4 h per pass for no new outcome classes)
     for (name, icut, N) in (QUICK if tier == 'quick' else THOROUGH):
         ent = vm.calculator(name, icut, N)
         vc = _vcoords(ent)
